@@ -73,8 +73,13 @@ def _check(led, meth):
     LB = PC.CC + meth
     led.function(LB)
     from .c05 import raise_signature
-    for clc in (None, 1, 2, 3):
+    import itertools
+    import numpy as np
+    for clc, load in itertools.product((None, 1, 2, 3), ('Fc', 'Nxxtop')):
+        if load == 'Nxxtop' and clc not in (None, 1):
+            continue
         it, log = mk()
+        seen_def = {}
         n = integer('size')
         num = integer('num_eigvalues')
         it.facts += [to_z3(n) >= 9, to_z3(n) <= 4000, to_z3(num) >= 1, to_z3(num) <= 50, to_z3(real('r2')) > 0, to_z3(real('L')) > 0]
@@ -82,6 +87,9 @@ def _check(led, meth):
 
         def linmat(itp, a, kw):
             cc = a[0]
+            nx_ = cc.attrs.get('Nxxtop')
+            seen_def['Fc'] = cc.attrs.get('Fc')
+            seen_def['Nxxtop'] = None if nx_ is None else [str(x) for x in np.asarray(nx_, dtype=object).reshape(-1)]
             if kw.get('combined_load_case') != clc:
                 raise pysym.CheckerError('lb passes combined_load_case=%r' % (kw.get('combined_load_case'),))
             itp.setattr(cc, 'k0', mats['k0'])
@@ -95,8 +103,9 @@ def _check(led, meth):
 
         def run():
             del log[:]
-            cc = PC.new_cc(it, model='clpt_donnell_bc1', alphadeg=0., r2=real('r2'), L=real('L'), Fc=real('Fc'), num_eigvalues=num,
-                           stack=[real('th0')], plyt=real('plyt'), laminaprop=(real('E1'),))
+            loadkw = dict(Fc=real('Fc')) if load == 'Fc' else dict(Nxxtop=np.array([real('Nxx%d' % i) for i in range(3)], dtype=object))
+            cc = PC.new_cc(it, model='clpt_donnell_bc1', alphadeg=0., r2=real('r2'), L=real('L'), num_eigvalues=num, n2=1,
+                           stack=[real('th0')], plyt=real('plyt'), laminaprop=(real('E1'),), **loadkw)
             try:
                 it.call(it.getattr(cc, meth), [], dict(combined_load_case=clc))
             except SymRaise as e:
@@ -110,7 +119,22 @@ def _check(led, meth):
         kterm = ('index', 'k0', (suf, suf)) if fixed is None else ('index', ('+', 'k0', fixed), (suf, suf))
         kgterm = ('index', prop, (suf, suf))
         for path, out in res:
-            name = '%s[combined_load_case=%s]' % (LB, clc)
+            name = '%s[combined_load_case=%s%s]' % (LB, clc, '' if load == 'Fc' else ',axial load given by Nxxtop')
+            if out[0] != 'raise':
+                # the reference load is the caller's: nothing replaces it before the geometric stiffness is integrated
+                want_def = {'Fc': real('Fc') if load == 'Fc' else None, 'Nxxtop': None if load == 'Fc' else ['P(1*Nxx%d)' % i for i in range(3)]}
+                bad = []
+                if load == 'Fc' and not (isinstance(seen_def.get('Fc'), P) and (seen_def['Fc'] - real('Fc')).is_zero()):
+                    bad.append('Fc = %s when the matrices are integrated' % (seen_def.get('Fc'),))
+                if load == 'Nxxtop':
+                    if seen_def.get('Fc') is not None:
+                        bad.append('Fc = %s although the caller defined the axial load through Nxxtop (it overrides Nxxtop[0])' % (seen_def.get('Fc'),))
+                    if seen_def.get('Nxxtop') != [str(real('Nxx%d' % i)) for i in range(3)]:
+                        bad.append('Nxxtop = %s when the matrices are integrated' % (seen_def.get('Nxxtop'),))
+                nm2 = name + '/reference-load-is-the-caller-definition'
+                led.ok(nm2, LB) if not bad else led.fail(nm2, LB, {'differences': bad}, signature='lb-load:' + ';'.join(bad)[:80])
+            if load != 'Fc':
+                continue          # everything else is the same path as with the load given by Fc
             if out[0] == 'raise':
                 e = out[1]
                 led.fail('%s/no-exception/%s' % (name, raise_signature(e)), LB,
